@@ -44,7 +44,7 @@ class C11:
             "non-ASCII character, > 1 tier, or an explicit version request on a hybrid is present; distinct by "
             "(origin, version x request, character classes, #tiers, url-list form, route)")
     required = ("uris_parsed", "btih_compared", "btmh_compared", "tr_compared", "ws_compared", "printed_compared",
-                "origin_tool", "origin_edited", "origin_ref", "announce_not_first_in_list")
+                "origin_tool", "origin_edited", "origin_ref", "announce_not_first_in_list", "create_magnet_route")
     assumptions = ("reference span decoder locates the exact info bytes", "urllib.parse.unquote_to_bytes decodes as clients do")
 
     @staticmethod
@@ -90,6 +90,7 @@ class C11:
         case = {"version": version, "origin": origin, "name": name, "single": single, "files": files,
                 "announce": ann, "tiers": tiers, "ws": ws, "ws_form": ws_form, "request": req,
                 "via": rng.choice(["lib", "cli", "cli-m"]), "extra": rng.random() < 0.5,
+                "create_magnet": rng.random() < 0.5,
                 "route": rng.choice({1: ["TorrentFile", "cli1"], 2: ["TorrentFileV2", "Assembler2", "cli2"],
                                      3: ["TorrentFileHybrid", "Assembler3", "cli3"]}[version])}
         if origin == "edited":
@@ -114,10 +115,18 @@ class C11:
                 materialise(base, [[name, case["files"][0][1], case["files"][0][2]]])
             else:
                 materialise(root, case["files"])
-            oc = drive.create(case["route"], root, mpath, piece_length=pl, progress=0,
-                              announce=case["tiers"][0] if case["tiers"] else None, url_list=case["ws"])
+            cbuf = io.StringIO()
+            saved_out = sys.stdout
+            sys.stdout = cbuf
+            try:
+                oc = drive.create(case["route"], root, mpath, piece_length=pl, progress=0,
+                                  announce=case["tiers"][0] if case["tiers"] else None, url_list=case["ws"],
+                                  magnet=case.get("create_magnet", False))
+            finally:
+                sys.stdout = saved_out
             if not oc.ok:
                 return {"inconclusive": "create failed " + oc.excname(), "traceback": oc.tb}
+            create_printed = [ln for ln in cbuf.getvalue().splitlines() if ln.startswith("magnet:?")]
             if case["origin"] == "edited":
                 eo = apply_edit(mpath, case["edit"])
                 if not eo.ok:
@@ -200,6 +209,26 @@ class C11:
                 counters["printed_compared"] = 1
             else:
                 viol.append(oracles.V("uri-not-printed", stdout=buf.getvalue()[:200]))
+            if case.get("create_magnet") and case["origin"] == "tool" and case["route"].startswith("cli"):
+                # the URI printed by `create --magnet` is the automatic one for the metafile just written
+                if create_printed:
+                    counters["create_magnet_route"] = 1
+                    if req == 0:
+                        uris.append(("printed-by-create--magnet", create_printed[-1]))
+                    else:
+                        p0 = parse_magnet(create_printed[-1]) or []
+                        want0 = set()
+                        if ver in (1, 3):
+                            want0.add(b"urn:btih:" + hashlib.sha1(span).hexdigest().encode())
+                        if ver in (2, 3):
+                            want0.add(b"urn:btmh:1220" + hashlib.sha256(span).hexdigest().encode())
+                        got0 = [v for k, v in p0 if k == "xt"]
+                        if set(got0) != want0 or len(got0) != len(want0):
+                            viol.append(oracles.V("xt-mismatch", which="printed-by-create--magnet",
+                                                  got=[x.decode("latin-1") for x in got0],
+                                                  want=sorted(x.decode() for x in want0), version=ver, request=0))
+                else:
+                    viol.append(oracles.V("uri-not-printed", which="create --magnet"))
             for which, uri in uris:
                 params = parse_magnet(uri) if isinstance(uri, str) else None
                 if params is None:
@@ -344,7 +373,7 @@ class C12:
             "call, including those made by the creation routes.  distinct = value class (type, sign, magnitude "
             "band, distance to nearest power of two, string syntax class) x route")
     required = ("contract_evaluations", "integers_enumerated", "strings_enumerated", "route_accepted",
-                "route_rejected", "auto_sizes_checked", "contract_evals_from_creation_routes")
+                "route_rejected", "auto_sizes_checked", "contract_evals_from_creation_routes", "auto_history_creations")
     assumptions = ("exponents 26..29 may be rejected or read as 2^n", "floats / bools are outside the quantifier",
                    "creation routes are exercised only for values <= 2^26 (a 2^40 piece buffer is a resource, "
                    "not a semantic, question)")
@@ -397,6 +426,9 @@ class C12:
                 cases.append({"kind": "route", "route": route, "value": s, "as_str": True})
         for b in range(4 if tier == "quick" else 24):
             cases.append({"kind": "auto", "seed": rng.randrange(1 << 30), "n": 25000})
+        for route in ("TorrentFile", "Assembler2", "cli1", "cli2", "TorrentFileV2", "config"):
+            for rep in range(1 if tier == "quick" else 4):
+                cases.append({"kind": "auto-history", "route": route, "seed": rng.randrange(1 << 30)})
         return cases
 
     @staticmethod
@@ -476,6 +508,56 @@ class C12:
                 sigs.add(("auto", e))
             sample.update(sizes=len(sizes))
             judge_log("auto")
+        elif case["kind"] == "auto-history":
+            # several automatic choices in ONE process while payloads shrink / grow across a threshold: the
+            # recorded piece lengths must still be a non-decreasing function of the payload size
+            import random
+            r = random.Random(case["seed"])
+            T = 1000 * 16384
+            route = case["route"]
+            obs = []
+
+            def make(path_name, size):
+                p = os.path.join(scratch, "hist", path_name, "payload.bin")
+                os.makedirs(os.path.dirname(p), exist_ok=True)
+                with open(p, "ab") as fd:
+                    fd.truncate(size)
+                root = os.path.dirname(p)
+                out = os.path.join(scratch, "hist", f"o{len(obs)}.torrent")
+                if route == "config":
+                    ini = os.path.join(scratch, "hist", "c.ini")
+                    with open(ini, "w") as fd:
+                        fd.write("[config]\ncomment = auto\n")
+                    oc = drive.cli_execute(["create", "--config", "--config-path", ini, "-o", out, "--prog", "0", root])
+                    if oc.ok:
+                        with open(out, "rb") as fd:
+                            oc.raw = fd.read()
+                else:
+                    oc = drive.create(route, root, out, piece_length=None, progress=0)
+                if not oc.ok:
+                    viol.append(oracles.V("auto-create-raised", route=route, size=size, exc=oc.excname()))
+                    return
+                rec = oracles.decode_meta(oc.raw)[1].get(b"piece length").value
+                obs.append((size, rec, path_name))
+            big = T + r.choice([1, 16384, 600000])
+            make("A", big)                       # 2^15 expected
+            make("A", r.choice([1, 1 << 20, T]))  # same path, shrunk below the threshold
+            make("B", T - r.choice([0, 1, 4096]))   # other path just below / at the threshold
+            make("A", 2 * T + 1)                 # grown across the next threshold
+            make("C", r.choice([100, 3 << 20]))
+            make("B", 2 * T + 5)
+            judge_log("route")
+            for size, rec, pn in obs:
+                if not (_is_pow2(rec) and 2 ** 14 <= rec <= 2 ** 24):
+                    viol.append(oracles.V("auto-choice-out-of-range", size=size, chosen=rec, route=route))
+            srt = sorted(obs)
+            for (s1, p1, n1), (s2, p2, n2) in zip(srt, srt[1:]):
+                if p2 < p1:
+                    viol.append(oracles.V("auto-choice-decreases-within-process", route=route, smaller=[s1, p1, n1],
+                                          larger=[s2, p2, n2], order_of_creation=[[o[2], o[0], o[1]] for o in obs]))
+            counters["auto_history_creations"] = len(obs)
+            sigs.add(("auto-history", route))
+            sample.update(route=route, observed=[[o[2], o[0], o[1]] for o in obs])
         else:
             v = case["value"]
             arg = str(v) if case["as_str"] else v
@@ -683,7 +765,7 @@ class C20:
             "out form)")
     required = ("three_routes_compared", "config_route_executed", "swallowed_path_cases", "fields_checked",
                 "out_file_cases", "out_dir_cases", "config_inline_single_value", "config_location_cwd",
-                "config_location_home")
+                "config_location_home", "config_after_earlier_config_create")
     assumptions = ("INI-unsafe values (%, leading/trailing blanks, newlines, the words true/false) are not generated",
                    "documented configuration keys are the singular long option names of the manual's example")
 
@@ -723,7 +805,8 @@ class C20:
                               "comment": rng.choice(["-c", "--comment"]), "out": rng.choice(["-o", "--out"])},
                 "ininames": {"announce": rng.choice(["announce", "announce", "tracker"])},
                 "ini_private_false": rng.random() < 0.3, "ini_inline": rng.random() < 0.5,
-                "ini_first_inline": rng.random() < 0.25, "ini_location": rng.choice(["path", "path", "cwd", "home"]), "cmdword": rng.choice(["create", "new"]),
+                "ini_first_inline": rng.random() < 0.25, "ini_location": rng.choice(["path", "path", "cwd", "home"]),
+                "config_prelude": rng.random() < 0.3, "cmdword": rng.choice(["create", "new"]),
                 "lib_path_kw": rng.choice(["path", "content"]), "lib_pl_str": rng.random() < 0.5}
 
     @staticmethod
@@ -765,6 +848,17 @@ class C20:
                 argv, orderclass = _c20_argv(case, root, outarg)
                 oc = drive.cli_execute(argv)
             elif route == "config":
+                if case.get("config_prelude"):
+                    # an earlier `create --config` in this process used a different, fully populated file
+                    pre = os.path.join(scratch, "preconfig")
+                    os.makedirs(pre, exist_ok=True)
+                    with open(os.path.join(pre, "full.ini"), "w", encoding="utf-8") as fd:
+                        fd.write("[config]\nannounce =\n    http://stale.example/announce\n    http://stale2.example/a\n"
+                                 "web-seed =\n    http://stale.example/ws\nhttp-seed =\n    http://stale.example/hs\n"
+                                 "private = true\nsource = STALE\ncomment = stale comment\npiece-length = 17\n"
+                                 "meta-version = 1\nalign = true\nout = " + os.path.join(pre, "stale.torrent") + "\n")
+                    drive.cli_execute(["create", "--config", "--config-path", os.path.join(pre, "full.ini"), "--prog", "0", root])
+                    counters["config_after_earlier_config_create"] = 1
                 loc = case.get("ini_location", "path")
                 if loc == "cwd":
                     ini = os.path.join(sub, "torrentfile.ini")           # documented default #1: ./torrentfile.ini
